@@ -15,6 +15,7 @@ Directives (comment lines starting with `//@`, arguments shell-quoted):
   //@ rewrite NAME "FROM" => "TO"                         literal replacement, must apply >= 1 time
   //@ rewrite? NAME "FROM" => "TO"                        same, but may apply 0 times (recorded)
   //@ rewrite-re NAME "REGEX" => "TO"                      regular-expression replacement (python re, \\1 back-references), must apply >= 1 time; `rewrite-re?` may apply 0 times
+  //@ desugar NAME range-contains                         `(a..=b).contains(&x)` -> `(a <= x && x <= b)`, `(a..b).contains(&x)` -> `(a <= x && x < b)`; may apply 0 times
   //@ drop NAME from "LIT_A" through "LIT_B" as "TEXT"    replaces whole lines [line containing LIT_A ..
                                                           line containing LIT_B] by TEXT (recorded as a drop); `drop?` may not apply
   //@ insert NAME before "LIT" : TEXT                     LIT must occur exactly once
@@ -195,6 +196,16 @@ def build(template_path, repo=None):
                 raise stage.LostAnchor("%s: regex rewrite source %r not present in %s" % (u.name, frm, name))
             pieces[name] = new
             rec["rewrites"].append("%s: regex %r -> %r (%d occurrence(s))" % (name, frm, to, n))
+        elif op == "desugar":
+            # //@ desugar NAME range-contains : std idiom `(a..=b).contains(&x)` -> `(a <= x && x <= b)`, `(a..b).contains(&x)` -> `(a <= x && x < b)`
+            # (the documented meaning of Range*::contains for totally ordered integers; Verus has no specification for it). May apply 0 times.
+            name, what = t[1], t[2]
+            if what != "range-contains":
+                raise ValueError("unknown desugaring %s" % what)
+            new, n1 = re.subn(r"\(([^()\s]+)\.\.=([^()\s]+(?:\(\))?)\)\.contains\(&([^()\s]+(?:\(\))?)\)", r"(\1 <= \3 && \3 <= \2)", pieces[name])
+            new, n2 = re.subn(r"\(([^()\s]+)\.\.([^()\s=][^()\s]*(?:\(\))?)\)\.contains\(&([^()\s]+(?:\(\))?)\)", r"(\1 <= \3 && \3 < \2)", new)
+            pieces[name] = new
+            rec["rewrites"].append("%s: desugar range-contains (%d inclusive, %d exclusive occurrence(s))" % (name, n1, n2))
         elif op in ("drop", "drop?"):
             name, la, lb, rep = t[1], t[3], t[5], t[7]
             ls = pieces[name].splitlines(keepends=True)
